@@ -194,6 +194,84 @@ def inline_macros(tree, rel: str, e, _depth=0):
     return e
 
 
+# ----------------------------------------------------------------- text an expression prints
+
+def str_pieces(e) -> list:
+    """What `{{ e }}` prints, as a list of pieces ("lit", text) | ("fmt", format spec, expr) | ("val", expr), independent of how the
+    text is assembled: `a ~ b`, `"..{}..".format(a)`, `x | prefix(p) | suffix(s)` (naunet's own filters: p + x, x + s) and string
+    constants all become the same sequence; adjacent literals are merged."""
+    import string
+    out = []
+
+    def lit(t):
+        if t == "":
+            return
+        if out and out[-1][0] == "lit":
+            out[-1] = ("lit", out[-1][1] + t)
+        else:
+            out.append(("lit", t))
+
+    def rec(x):
+        if x[0] == "const" and isinstance(x[1], str):
+            lit(x[1])
+        elif x[0] == "concat":
+            for p_ in x[1]:
+                rec(p_)
+        elif x[0] == "filter" and x[1] in ("prefix", "suffix") and len(x[3]) == 1 and not x[4]:
+            if x[1] == "prefix":
+                rec(x[3][0]); rec(x[2])
+            else:
+                rec(x[2]); rec(x[3][0])
+        elif x[0] == "call" and x[1][0] == "attr" and x[1][2] == "format" and x[1][1][0] == "const" and isinstance(x[1][1][1], str) and not x[3]:
+            try:
+                fields = list(string.Formatter().parse(x[1][1][1]))
+            except ValueError:
+                out.append(("val", x)); return
+            auto = 0
+            tmp = []
+            for text, name, spec, conv in fields:
+                tmp.append(("lit", text))
+                if name is None:
+                    continue
+                if name == "":
+                    i = auto; auto += 1
+                elif name.isdigit():
+                    i = int(name)
+                else:
+                    out.append(("val", x)); return
+                if i >= len(x[2]) or conv:
+                    out.append(("val", x)); return
+                tmp.append(("arg", x[2][i], spec or ""))
+            for t in tmp:
+                if t[0] == "lit":
+                    lit(t[1])
+                elif t[2] == "":
+                    rec(t[1])
+                else:
+                    out.append(("fmt", t[2], t[1]))
+        else:
+            out.append(("val", x))
+    rec(e)
+    return out
+
+
+def elementwise(seq, elt):
+    """A chain of `| map(..)` filters over a base sequence as (base, the expression computed for one element `elt` of the base):
+    `S | map(attribute="a") | map("prefix", p)`  ->  (S, elt.a | prefix(p)).  A sequence without map filters is (seq, elt)."""
+    if seq[0] == "filter" and seq[1] == "map":
+        base, inner = elementwise(seq[2], elt)
+        kw = dict(seq[4])
+        if not seq[3] and set(kw) == {"attribute"} and kw["attribute"][0] == "const" and isinstance(kw["attribute"][1], str):
+            x = inner
+            for part in kw["attribute"][1].split("."):
+                x = ("attr", x, part)
+            return base, x
+        if seq[3] and seq[3][0][0] == "const" and isinstance(seq[3][0][1], str) and not seq[4]:
+            return base, ("filter", seq[3][0][1], inner, tuple(seq[3][1:]), ())
+        return seq, elt
+    return seq, elt
+
+
 # ----------------------------------------------------------------- config tests
 
 def decide(e, config: dict):
